@@ -545,7 +545,7 @@ def with_discriminators(f, txn, variants, r):
 
 def result_summary(res):
     return {'merchant': res.merchant, 'category': res.category, 'subcategory': res.subcategory,
-            'tags': sorted(re.sub(r' at 0x[0-9a-f]+', '', x) for x in res.tags),
+            'tags': sorted({re.sub(r' at 0x[0-9a-f]+', '', x) for x in res.tags}),
             'all_matching': [x.line_number for x in res.all_matching_rules],
             'extra_fields': [[k, canon_val(v)] for k, v in res.extra_fields.items()]}
 
